@@ -10,6 +10,24 @@ Theorem C01_render_then_compile : forall t (e:pexpr) (ts:list ptok), Pratt.Rende
 Proof. exact (Pratt.C01_render_then_compile value (list N)). Qed.
 Print Assumptions C01_render_then_compile.
 
+(* every tree has a minimal rendering (only the parentheses that precedence and left-associativity require) and a fully parenthesised
+   one, and both compile back to it; conversely whenever compile accepts a token list, re-rendering the tree it produced and compiling
+   again reproduces the same tree *)
+Theorem C01_render_functions_roundtrip : forall e : pexpr, Pratt.compile value (list N) (Pratt.render_min value (list N) e) = Pratt.Ok e /\
+  Pratt.compile value (list N) (Pratt.render_full value (list N) e) = Pratt.Ok e.
+Proof. exact (Pratt.C01_render_functions_roundtrip value (list N)). Qed.
+Theorem C01_reparse : forall (ts:list ptok) (e:pexpr), Pratt.compile value (list N) ts = Pratt.Ok e ->
+  Pratt.compile value (list N) (Pratt.render_min value (list N) e) = Pratt.Ok e /\ Pratt.compile value (list N) (Pratt.render_full value (list N) e) = Pratt.Ok e.
+Proof. exact (Pratt.C01_reparse value (list N)). Qed.
+Print Assumptions C01_reparse.
+(* at the text level: any well-formed layout (whitespace, comments, keyword case, literal spellings) of any rendering compiles to the tree *)
+Theorem C01_text : forall (d:Scan.doc) fin lead t (e:pexpr),
+  Forall wf_sep lead -> u_ok_doc d fin -> skip Normal fin = [] -> d <> [] ->
+  Pratt.Renders value (list N) t e (map (fun x => conv_tok (u_denote (fst x))) d) ->
+  Front.compile (print_seps lead ++ print_rest d fin) = COk (conv_expr e).
+Proof. exact text_render_then_compile. Qed.
+Print Assumptions C01_text.
+
 (* the tables the proof is about are the tables the code has today (regenerated from token.rs / compiler.rs on every run) *)
 Theorem C01_token_precedence_is_the_codes : forall t : ptok, rp (Pratt.tprec value (list N) t) = rtoken_prec (rt t).
 Proof. intros t. destruct t as [| | | | |b| | |]; try reflexivity. destruct b; reflexivity. Qed.
